@@ -108,7 +108,11 @@ VH_MAIN {
         COVER(in.rank > 0 && A.numrecs > in.numrecs, "non-root rank raises its record count");
 #endif
     } else ASSERT(A.numrecs == in.numrecs, "filling a fixed-size variable leaves the record count alone");
+#if NPROCS <= 3
     COVER(in.have_fillatt && A.wlen > xsz, "user-defined fill value, several elements");
+#else
+    COVER(in.have_fillatt, "user-defined fill value");
+#endif
 #else
     /* C11 + C08.c under fault injection on rank A */
     if (A.failed) ASSERT(A.err != NC_NOERR, "an MPI-IO failure during the fill is returned");
